@@ -32,7 +32,7 @@ pub fn evaluate(bin: &Path, scratch: &Scratch, property: &str, cases: &[Case]) -
         recs.push(r);
     }
     if property == "C19" && recs.len() == 2 {
-        let live = recs.iter().all(|r| r.iter().all(|x| x.run.status < 90));
+        let live = recs.iter().all(|r| r.iter().all(|x| !crate::oracle::sim_reserved(x.run.status)));
         if live {
             let (a, b) = (outcome_of(&recs[0]), outcome_of(&recs[1]));
             if a != b {
